@@ -103,7 +103,25 @@ pub struct Outcome {
 
 /// check one (graph, encoder object, range flag); Err = (what, message); Ok(None) = not implemented
 pub fn check_one(g: &Graph, e: EncId, enc: &dyn ConstraintsEncoder<usize>, range: bool) -> Result<Option<Outcome>, (String, String)> {
-    let b = build_usize(g, Presentation::Compact);
+    check_one_pres(g, e, enc, range, 0)
+}
+
+/// dup: 0 = compact (every attack once), 1 = through the ICCMA reader with every attack line twice,
+/// 2 = through the ICCMA reader with the last attack line three times (readers keep repetitions)
+pub fn check_one_pres(g: &Graph, e: EncId, enc: &dyn ConstraintsEncoder<usize>, range: bool, dup: u8) -> Result<Option<Outcome>, (String, String)> {
+    let b = match dup {
+        0 => build_usize(g, Presentation::Compact),
+        1 => build_usize(g, Presentation::Dup),
+        _ => {
+            use crustabri::io::InstanceReader;
+            let mut text = crate::universe::iccma_text(g);
+            if let Some(&(a, t)) = g.att.last() {
+                text.push_str(&format!("{} {}\n{} {}\n", a + 1, t + 1, a + 1, t + 1));
+            }
+            let af = crustabri::io::Iccma23Reader::default().read(&mut text.as_bytes()).expect("harness: ICCMA text rejected");
+            crate::universe::Built { af, labels: (1..=g.n).collect() }
+        }
+    };
     let n = g.n;
     let r = Ref::new(g);
     let mut rec = RecordingSat::default();
@@ -291,8 +309,11 @@ pub fn run(tier: Tier) -> i32 {
                     if g.n > 6 && matches!(e, EncId::Menu(Enc::AuxCF) | EncId::Menu(Enc::ExpCF) | EncId::Menu(Enc::AuxAdm) | EncId::FactoryConflictFreeness | EncId::FactoryComplete) {
                         continue;
                     }
-                    for range in [false, true] {
-                        match check_one(g, *e, enc.as_ref(), range) {
+                    for (range, dup) in [(false, 0u8), (true, 0), (false, 1), (true, 2), (false, 2), (true, 1)] {
+                        if dup > 0 && (g.att.is_empty() || g.n > 4 || (g.n == 4 && g.att.len() > 5)) {
+                            continue;
+                        }
+                        match check_one_pres(g, *e, enc.as_ref(), range, dup) {
                             Ok(None) => acc.not_implemented += 1,
                             Ok(Some(o)) => {
                                 acc.encodings += 1;
@@ -313,12 +334,12 @@ pub fn run(tier: Tier) -> i32 {
                                 }
                             }
                             Err((what, msg)) => {
-                                let key = format!("encoder={};range={};what={}", e.name(), range, what);
+                                let key = format!("encoder={};range={};repeated_attacks={};what={}", e.name(), range, dup, what);
                                 let v = Violation {
                                     property: "C10".into(),
                                     key: key.clone(),
-                                    message: format!("{} ({}) encoder {} range={}: {}", g.describe(), name, e.name(), range, msg),
-                                    case: json!({"engine": "encoding", "graph": g.to_json(), "encoder": e.name(), "range": range}),
+                                    message: format!("{} ({}) encoder {} range={} repeated-attack presentation {}: {}", g.describe(), name, e.name(), range, dup, msg),
+                                    case: json!({"engine": "encoding", "graph": g.to_json(), "encoder": e.name(), "range": range, "dup": dup}),
                                 };
                                 let en = acc.violations.entry(key).or_insert((0, v));
                                 en.0 += 1;
